@@ -151,6 +151,15 @@ impl Property for C17 {
                 }
             }
         }
+        // the push of no data (byte 00) assembled as an element: first, last, between opcodes, alone in a branch
+        let empty = || El::Push(0, Bytes::Lit(vec![]));
+        for (k, els) in [vec![empty()], vec![El::Op(0x76), empty(), El::Op(0x87)], vec![empty(), El::Op(0x51)], vec![El::Op(0x51), empty()], vec![El::Op(0x51), El::If { code: 99, pass: vec![empty()], fail: Some(vec![El::Op(0x51)]) }], vec![El::Op(0), El::If { code: 100, pass: vec![], fail: Some(vec![empty(), empty()]) }]].into_iter().enumerate() {
+            for ws in [0u8, 3] {
+                if (k + ws as usize) % nshards == shard && !f(Case::RoundTrip { els: els.clone(), ws, allow_collision: true }) {
+                    return;
+                }
+            }
+        }
         if shard == 1 % nshards {
             f(Case::Names);
         }
@@ -310,10 +319,26 @@ fn classify(els: &[El], o: &mut Outcome) {
     }
 }
 
+fn has_empty_push(els: &[El]) -> bool {
+    els.iter().any(|e| match e {
+        El::Push(0, d) => d.len() == 0,
+        El::If { pass, fail, .. } => has_empty_push(pass) || fail.as_ref().map(|f| has_empty_push(f)).unwrap_or(false),
+        _ => false,
+    })
+}
+
 fn roundtrip(els: &[El], ws: u8, o: &mut Outcome) -> Result<(), Failure> {
     let bytes = gs::to_bytes(els);
-    let toks = gs::to_tokens(els);
-    let script = lib_call("Script::from_bytes", || Script::from_bytes(&bytes))?.map_err(|e| failure("script_accepted", format!("Err({}) for {}", e, short_hex(&bytes)), "Ok: grammar script"))?;
+    // what the bytes say (an element-built empty push is the byte 00, i.e. OP_0)
+    let toks = crate::refimpl::script_tok::tokenize(&bytes).map_err(|e| failure("harness_self_check", format!("{:?}", e), "generated scripts tokenize"))?;
+    // the script object: parsed from its bytes, or (every third case, and whenever it holds an empty push) assembled from elements
+    let from_elements = has_empty_push(els) || bytes.iter().fold(0u8, |a, b| a.wrapping_mul(7).wrapping_add(*b)) % 3 == 0;
+    let script = if from_elements {
+        o.label("script-assembled-from-elements");
+        script_from_els(els)
+    } else {
+        lib_call("Script::from_bytes", || Script::from_bytes(&bytes))?.map_err(|e| failure("script_accepted", format!("Err({}) for {}", e, short_hex(&bytes)), "Ok: grammar script"))?
+    };
     let asm = lib_call("to_asm_string", || script.to_asm_string())?;
     let want = render_plain(&toks);
     if asm != want {
